@@ -43,13 +43,16 @@ RULE = ("cases = designs (14 resolution branches: fc|landa_D x dneff|vdneff|kL-o
         "F in [-20,20] or 0, 4 built-in profiles + 3 families of positive smooth callables, 1/2 polarisations, fs in 20..400 GS/s, "
         "centre on/off the frequency grid, filtfilt on/off, field dtype complex128 / float64 / int64 / bool, the grid configured through gv(sps,R) / gv(sps,fs) / gv(R,fs) with non-integer fs/R / gv(fs) / gv(R,fs,N) with N*sps != input length, n=2^8 (quick) .. 2^12), each with 4 probes of the captured RHS at "
         "random (z,y) incl. z=+-1/2 and 0; route sextuples (same grating through the six routes); incomplete/ill-typed "
-        "specifications; out-of-band centre; histories: the same grating and input length under 3-4 sampling rates in sequence "
+        "specifications; out-of-band centre; short gratings (kL 0.1-0.3 at vdneff 1e-3: 90-280 periods) through the kL/L/N routes; a positional twin (all "
+        "arguments passed positionally in the documented order) for a third of the small designs; histories: the same grating and input length under 3-4 sampling rates in sequence "
         "inside one process (and two gratings recurring across cases at different rates), each step checked against the uniform "
         "closed form for the rate in force. non-trivial = a design that ran; distinct by all parameters")
 PARTIAL = ["accuracy of RK45 (solve_ivp, rtol=1e-3) ONLY: that the numbers FBG returns are within the solver's accuracy of the exact "
            "solution, for which passivity, the tanh^2 Bragg value and the whole uniform spectrum (stop band, pass band, band edge) "
-           "ARE theorems; checked by the oracle on the real code: |H|<=1+5e-3 at every bin, Bragg reflectivity and uniform spectrum "
-           "within 1e-2",
+           "ARE theorems; checked by the oracle on the real code: |H|<=1+5e-3 at every bin; Bragg reflectivity and uniform spectrum "
+           "within 1e-2 absolute for reflectivities >= 0.5 and RELATIVE to the value for weak gratings (Bragg: 1e-3 of the value for "
+           "the uniform profile, 1e-2 for apodised/callable profiles; spectrum: 1e-3 of the peak at every bin) — the unchanged tree "
+           "meets 2.4e-4 (uniform, Bragg and spectrum/peak) and 2.6e-3 (apodised Bragg) below 0.5, and 3.3e-3 absolute above",
            "the integral of the gaussian profile has no elementary closed form: the tanh^2 theorem is stated with an antiderivative; "
            "the oracle integrates numerically",
            "tau_g (np.unwrap/np.angle/np.diff) and dispersion are parameters: the returned tau array is spied and fed to the model",
@@ -221,6 +224,15 @@ def gen_cases(rng, tier):
         c.update(n=4096, sps=sps, R=R, ongrid=True, m=mm, F=0.0, v=1.0, apo="uniform", filtfilt=False, npol=1,
                  kw=_kwargs(c["route"], "kL", _f0() + mm * fs / 4096, kL, vd, 1.0))
         cases.append(c)
+    # SHORT gratings (a few hundred periods and fewer: kL 0.1..0.3 at vdneff = 1e-3), through the kL=, L= and N= routes, uniform and
+    # apodised, unchirped and centred on the grid: weak reflectivity (|H|^2 ~ kL^2), judged relative to the value
+    for j in range(6 if tier == "quick" else 36):
+        c = _design(rng, tier, rng.choice(["fc-vdneff", "ld-vdneff"]), ["kL", "L", "N"][j % 3])
+        fs = c["sps"] * c["R"]
+        c["m"] = rng.randint(-c["n"] // 8, c["n"] // 8)
+        c.update(ongrid=True, F=0.0, v=1.0, apo="uniform" if j < 4 or rng.random() < 0.6 else rng.choice(APOS), filtfilt=False)
+        c["kw"] = _kwargs(c["route"], c["length"], _f0() + c["m"] * fs / c["n"], rng.uniform(0.1, 0.3), rng.choice([1e-3, 1e-3, 7e-4]), 1.0)
+        cases.append(c)
     # the same grating and input length under a sequence of sampling rates inside ONE process (the response is a function
     # of the grating and of the frequency grid in force, not of what was computed before); uniform profile, unchirped,
     # vdneff route, so every step is checked against the closed form for the rate in force
@@ -382,6 +394,27 @@ def _call_fbg(dev, x, kw, apo, F, filtfilt):
         return dev.FBG(x, apodization=_apo_arg(apo), F=F, filtfilt=filtfilt, retH=True, print_params=False, **kw)
 
 
+# documented positional order of FBG (signature at /repo HEAD 8caea4c), recorded here — NOT read from the code under test
+FBG_ORDER = ["input", "neff", "v", "landa_D", "fc", "kL", "L", "N", "dneff", "vdneff", "apodization", "F", "print_params", "filtfilt", "retH"]
+FBG_DEFAULTS = {"neff": 1.45, "v": 1.0, "landa_D": None, "fc": None, "kL": None, "L": None, "N": None, "dneff": None, "vdneff": None}
+
+
+def _call_fbg_positional(dev, x, kw, apo, F, filtfilt):
+    try:
+        from threadpoolctl import threadpool_limits
+    except Exception:  # noqa
+        from contextlib import nullcontext as threadpool_limits
+    full = dict(FBG_DEFAULTS)
+    full.update(kw)
+    full.update(input=x, apodization=_apo_arg(apo), F=F, print_params=False, filtfilt=filtfilt, retH=True)
+    with threadpool_limits(limits=1), time_limit(60):
+        return dev.FBG(*[full[k] for k in FBG_ORDER])
+
+
+def _has_twin(case):
+    return case["kind"] == "design" and case["n"] <= 512 and case["seed"] % 3 == 0 and not case.get("outofband")
+
+
 def run_impl(case):
     from opticomlib.typing import gv, optical_signal, electrical_signal
     import opticomlib.devices as dev
@@ -442,6 +475,16 @@ def run_impl(case):
             with _Spy(dev) as spy:
                 y, H = _call_fbg(dev, x, case["kw"], case["apo"], case["F"], case["filtfilt"])
             res["ncalls"] = len(spy.calls)
+            if _has_twin(case):
+                # positional twin: the same call with every argument passed positionally in the documented order
+                try:
+                    yp, Hp = _call_fbg_positional(dev, optical_signal(a, n_pol=case["npol"]), case["kw"], case["apo"], case["F"], case["filtfilt"])
+                    res["positional"] = {"status": "ok", "same": bool(np.array_equal(np.asarray(Hp), np.asarray(H)) and
+                                                                       np.array_equal(np.asarray(yp.signal), np.asarray(y.signal)))}
+                except Timeout:
+                    res["positional"] = {"status": "timeout"}
+                except Exception as e:  # noqa
+                    res["positional"] = {"status": "err", "err": exc_enum(e), "detail": repr(e)[:160]}
             if len(spy.calls) != 1:
                 # the solver was not (or not only once) reached through opticomlib.devices.solve_ivp: nothing to tie the model to,
                 # but the returned response and field are still judged by the oracle
@@ -666,6 +709,22 @@ def _expected_spec(kw):
     return False
 
 
+def _bragg_tol(want, uniform):
+    """tolerance on |H(f_Bragg)|^2: the statement's 'accuracy of the ODE solver' is RELATIVE to the value for a weak grating
+    (|H|^2 ~ kL^2 ~ 1e-2: an absolute 1e-2 would accept anything).  Measured on the unchanged tree over 400 designs: relative error
+    <= 2.4e-4 for the uniform profile and <= 2.6e-3 for apodised / callable profiles (RK45, rtol 1e-3, few steps on a weak
+    grating); demanded: 1e-3 (uniform) / 1e-2 (apodised) of the value below a reflectivity of 0.5, the absolute 1e-2 above."""
+    if want < 0.5:
+        return (1e-3 if uniform else 1e-2) * want + 1e-12
+    return 1e-2
+
+
+def _spec_tol(peak):
+    """tolerance on the uniform spectrum, every bin: 1e-3 of the peak reflectivity for weak gratings (peak < 0.5; measured on the
+    unchanged tree: <= 2.4e-4 of the peak), the absolute 1e-2 for strong ones (measured <= 3.3e-3)"""
+    return 1e-3 * peak + 1e-12 if peak < 0.5 else 1e-2
+
+
 def _uniform_reflectivity(n, fs, f0, lam_d, L, vd):
     f = np.fft.fftshift(np.fft.fftfreq(n)) * fs + f0
     lam = C0 / f
@@ -725,9 +784,9 @@ def oracle(case, res):
                 v.append(("C16:passivity", f"max|H| = {np.max(np.abs(H)):.6f} > 1 at {where}"))
             refl = _uniform_reflectivity(case["n"], st["want_fs"], st["f0"], lam_d, L, vd)
             err = np.abs(np.abs(H) ** 2 - refl)
-            if not np.all(err <= 1e-2):
+            if not np.all(err <= _spec_tol(float(np.max(refl)))):
                 kk = int(np.argmax(np.where(np.isnan(err), np.inf, err)))
-                v.append(("C16:uniform-spectrum", f"|H[{kk}]|^2 = {abs(H[kk]) ** 2:.6f} vs sinh^2 g/(cosh^2 g - d^2/k^2) = {refl[kk]:.6f} "
+                v.append(("C16:uniform-spectrum", f"|H[{kk}]|^2 = {abs(H[kk]) ** 2:.8f} vs sinh^2 g/(cosh^2 g - d^2/k^2) = {refl[kk]:.8f} "
                                                   f"for the frequency grid in force at {where}"))
         return v
     if kind == "routes":
@@ -738,6 +797,10 @@ def oracle(case, res):
                 v.append(("C16:routes", f"route {i} ({sorted(case['kws'][i])}) gives a response differing by {d:.3e} from route 0 {tag}"))
         return v
     n = case["n"]
+    pt = res.get("positional")
+    if pt is not None and not (pt.get("status") == "ok" and pt.get("same")):
+        v.append(("C16:positional:FBG", f"FBG called with its arguments passed positionally in the documented order {FBG_ORDER[1:]} "
+                                        f"does not return the same H/output as the keyword call: {pt} {tag}"))
     if not (abs(res["fs"] - _fs_of(case)) <= 1e-9 * _fs_of(case)):
         v.append(("C16:gv-fs", f"gv.fs = {res['fs']!r} but {_fs_of(case)!r} was requested {tag}"))
     H = np.array([complex(a, b) for a, b in res["H"]])
@@ -772,8 +835,10 @@ def oracle(case, res):
         ib = n // 2 + case["m"]
         want = math.tanh(kL * integral_of(case["apo"])) ** 2
         got = abs(H[ib]) ** 2
-        if not (abs(got - want) <= 1e-2):
-            v.append(("C16:bragg", f"reflectivity at the Bragg frequency {got:.6f} != tanh^2(kL*int p) = {want:.6f} (kL={kL:.4f}) {tag}"))
+        btol = _bragg_tol(want, case["apo"] == "uniform")
+        if not (abs(got - want) <= btol):
+            v.append(("C16:bragg", f"reflectivity at the Bragg frequency {got:.8f} != tanh^2(kL*int p) = {want:.8f} (kL={kL:.4f}, "
+                                   f"relative error {abs(got - want) / want:.2e}, tolerance {btol:.2e}) {tag}"))
         if case["apo"] == "uniform":
             f = np.fft.fftshift(np.fft.fftfreq(n)) * fs + f0
             lam = C0 / f
@@ -782,9 +847,11 @@ def oracle(case, res):
             g = np.sqrt((k ** 2 - d ** 2).astype(complex))
             refl = (np.sinh(g) ** 2 / (np.cosh(g) ** 2 - d ** 2 / k ** 2)).real
             err = np.abs(np.abs(H) ** 2 - refl)
-            if not np.all(err <= 1e-2):
+            stol = _spec_tol(float(np.max(refl)))
+            if not np.all(err <= stol):
                 kk = int(np.argmax(np.where(np.isnan(err), np.inf, err)))
-                v.append(("C16:uniform-spectrum", f"|H[{kk}]|^2 = {abs(H[kk]) ** 2:.6f} vs sinh^2 g/(cosh^2 g - d^2/k^2) = {refl[kk]:.6f} {tag}"))
+                v.append(("C16:uniform-spectrum", f"|H[{kk}]|^2 = {abs(H[kk]) ** 2:.8f} vs sinh^2 g/(cosh^2 g - d^2/k^2) = {refl[kk]:.8f} "
+                                                  f"(peak {np.max(refl):.4g}, tolerance {stol:.2e}) {tag}"))
     return v
 
 
@@ -794,6 +861,8 @@ def features(case, res):
         f += ["dtype=" + _dtype_of(case), f"route={case['route']}/{case['length']}", "apo=" + _apo_name(case["apo"]), f"npol={case['npol']}", f"n={case['n']}",
               "chirp" if case["F"] else "no-chirp", "filtfilt" if case["filtfilt"] else "no-filtfilt",
               "ongrid" if case["ongrid"] else "offgrid", f"fs={case['sps'] * case['R']:.0e}", "gv(" + _gv_kind(case) + ")"]
+        if res.get("positional"):
+            f.append("positional-twin")
         if res.get("status") == "ok":
             f.append("nfev<100" if res["nfev"] < 100 else "nfev<400" if res["nfev"] < 400 else "nfev>=400")
     if case["kind"] == "spec":
